@@ -9,7 +9,8 @@ RULE = ("SortCase: real sortDocuments on 0-8 generated documents (skip reason, c
         "back from the shard files, Parallelism 1 and 3. non-trivial = >=3 documents / >=2 shards in the chain / >=2 shards written. "
         "End-to-end oracle (package search): corpora of 2-3 repositories x {tiny/medium/small shards, Parallelism 1/2/16, reversed and "
         "random insertion order, compound shard via index.Merge}; a directory searcher must return identical canonical results for a "
-        "17-query battery.")
+        "17-query battery plus 25 repository-filter queries (RepoSet / RepoIDs / Repo regexp / single-branch BranchesRepos selecting each single "
+        "repository and first+last, alone and in a top-level And: in the compound builds a strict subset of the shard's repositories).")
 TB = ["correspondence harnesses harness/overlay/index/zz_verif_c10_test.go and harness/overlay/search/zz_verif_c10e2e_test.go (generators, canonicalisation, Go oracles)",
       "rank(): the float vector is modelled as an integer vector: squashRange x/(1+x) assumed strictly increasing on the lengths that occur (< 2^26)",
       "sort.Slice modelled as insertion sort on the rank vector; legitimate because the vector is a strict total order (last component = original index); tied by SortCase",
